@@ -94,6 +94,13 @@ def pyEscape (s : String) : String :=
 def baseRegex (units : List String) : String :=
   "^\\s*(" ++ "|".intercalate (units.map pyEscape) ++ ")\\s*$"
 
+/-- What Python's `re.search(baseRegex units, a)` computes for the pattern `^\\s*(u1|u2|…)\\s*$` of escaped literal
+    units without whitespace: the argument, stripped of the characters `\\s` matches (the ones `str.strip()` removes),
+    is one of the units.  (An empty unit list gives the pattern `^\\s*()\\s*$`: whitespace only.)  Tied to the real
+    `re` by the `baseprobe` queries of the correspondence, on stripped and unstripped arguments. -/
+def acceptBase (units : List String) (a : String) : Bool :=
+  if units.isEmpty then Analyzer.strip a == "" else units.contains (Analyzer.strip a)
+
 /-- `create_lsp_definition` + `get_command_definitions` as assembled by `create_uod_info` -/
 def publish (G : Engine) (repaired : Bool) : Published :=
   { tags := G.tags
@@ -270,8 +277,9 @@ def parseAgree (G : Engine) (n : ENode) : Bool :=
     n.a.kind == .command false && G.keywords.contains n.a.instrName && n.a.instrName != "Base" &&
       (G.specs.lookup n.a.instrName).isSome
   | .interpCommand =>
+    -- `node.arguments` is `arguments_part.strip()`
     n.a.kind == .command false && G.keywords.contains n.a.instrName && interpNames.contains n.a.instrName &&
-      (G.specs.lookup n.a.instrName).isSome
+      (G.specs.lookup n.a.instrName).isSome && Analyzer.strip n.a.arguments == n.a.arguments
   | .watch => n.a.kind == .watch
   | .alarm => n.a.kind == .alarm
   | .simulate => n.a.kind == .simulate
@@ -286,11 +294,14 @@ structure NamesOk (G : Engine) : Prop where
   notKeyword : ∀ c ∈ G.uodCmds, G.keywords.contains c.name = false
   examplesKeyword : ∀ n ∈ G.examples, G.keywords.contains n = true
 
-/-- the patterns of the internal commands are anchored (`re.search` ⇒ `re.match`), the published `Base` pattern
-    matches listed units only, what `REGEX_INT` accepts `int()` accepts -/
+/-- Facts about Python's `re` / `int` for the patterns of this engine, each true of the real functions for **every**
+    argument string: the patterns of the internal commands are anchored (`re.search` ⇒ `re.match`); on the published
+    `Base` pattern `re.search` computes `acceptBase` (so " L" is accepted — the engine never sees it, arguments are
+    stripped: `parseAgree`); what `REGEX_INT` accepts `int()` accepts. -/
 structure OraclesOk (G : Engine) : Prop where
   anchored : ∀ n r a, G.specs.lookup n = some r → G.search r a = true → G.matchP r a = true
-  baseSound : ∀ a, G.search (baseRegex G.baseUnits) a = true → G.baseUnits.contains a = true
+  baseExact : ∀ a, G.search (baseRegex G.baseUnits) a = acceptBase G.baseUnits a
+  baseUnitsNonempty : G.baseUnits ≠ []
   intSound : ∀ r a, G.specs.lookup "Run counter" = some r → G.search r a = true → G.intOk a = true
 
 end OPM.Accept
